@@ -249,7 +249,7 @@ def hashable : PyVal → Bool
   | .just _ _ => false
   | .nothing => false
   | .tuple _ xs => hashableL xs
-  | .inst _ _ c _ vs => if c.kind == 2 then hashableL vs else c.hashable
+  | .inst _ _ c _ vs => if c.kind == 2 then hashableL vs else if c.kind == 1 then c.hashable && hashableL vs else c.hashable
   | .sub _ v => hashable v
   | .decimal .snan => false
   | _ => true
